@@ -144,6 +144,8 @@ def gen_single(rng, idx):
                     flux[j] += rng.choice([-1, 1]) * 25.0 / math.sqrt(ivar[j])
     elif kind == 'noisy':
         flux = [f + rng.randint(-4, 4) / 64.0 for f in flux]
+        for _ in range(rng.randint(1, 2)):                     # a cosmic ray: without objivar iterfit weighs by 1/var(flux)
+            flux[rng.randrange(5, n - 5)] += rng.choice([6.0, 9.0, -7.0])
     variant = VARIANTS[(idx // 2) % len(VARIANTS)]
     if idx % 24 in (8, 11, 18):          # output grid entirely beside the data: mean, damp, traditional
         variant = 'disjoint'
@@ -168,6 +170,8 @@ def gen_single(rng, idx):
         call['flux_dtype'] = 'float32'
         if call['ivar'] is not None and idx % 2:
             call['ivar_dtype'] = 'float32'
+    if not with_ivar and kind == 'noisy':
+        call['extras']['scale'] = [1e-17, 1e4, 2.0 ** -56, 1e-8][(idx // 10) % 4]
     return call
 
 
@@ -222,6 +226,26 @@ def gen_stack(rng, idx):
     extras = {'scale': rng.choice([2.0, 0.5, 4.0])} if idx % 2 == 0 else {}
     return {'f': 'combine', 'shape': 'stack', 'kind': 'const' if const else 'smooth', 'variant': variant, 'inloglam': inl,
             'flux': flux, 'ivar': ivar, 'newloglam': new, 'kwargs': {'aesthetics': method}, 'extras': extras, 'level': a}
+
+
+def gen_stack_noivar(rng, idx):
+    """stacked exposures WITHOUT inverse variance and with a cosmic ray in one of them: iterfit weighs by 1/var(flux) and
+    must reject the ray whatever the flux units (scale extras down to 1e-17)"""
+    nspec = 3
+    n = rng.randint(104, 116)
+    l0 = 3.5
+    per = rng.choice([40.0, 90.0])
+    a = C.dyadic(rng, 1, 3, 2)
+    inl, flux = [], []
+    for s in range(nspec):
+        off = [0.0, 0.25, 0.5][s]
+        inl.append([l0 + DL * (i + off) for i in range(n)])
+        flux.append([a + 0.25 * math.sin((i + off) / per * 2 * math.pi) + rng.randint(-2, 2) / 64.0 for i in range(n)])
+    flux[rng.randrange(nspec)][rng.randint(20, n - 20)] += rng.choice([8.0, 12.0])
+    variant = ['same', 'shift'][idx % 2]
+    return {'f': 'combine', 'shape': 'stack', 'kind': 'noisy', 'variant': variant, 'inloglam': inl, 'flux': flux, 'ivar': None,
+            'newloglam': out_grid(rng, n, l0, variant), 'kwargs': {'aesthetics': ['traditional', 'nothing', 'mean'][idx % 3]},
+            'extras': {'scale': [1e-17, 2.0 ** -56, 1e-8, 1e4][idx % 4]}, 'level': a}
 
 
 def gen_preprocess(rng, idx):
@@ -291,6 +315,7 @@ def correspond(ctx, proof_ok=True):
     calls = [gen_single(rng, i) for i in range(ctx.n(69, 600))]
     calls += [gen_const_noivar(rng, i) for i in range(ctx.n(12, 60))]
     calls += [gen_stack(rng, i) for i in range(ctx.n(12, 100))]
+    calls += [gen_stack_noivar(rng, i) for i in range(ctx.n(4, 24))]
     calls += [gen_preprocess(rng, i) for i in range(ctx.n(6, 40))]
     nb = 8
     outs = C.run_impl_parallel('c11_impl.py', [calls[i::nb] for i in range(nb)])
@@ -322,6 +347,11 @@ def correspond(ctx, proof_ok=True):
             if 'err' in r:
                 viol('C11:preprocess_spectra:impl=%s' % r['err'], 'preprocess_spectra raised %s: %s' % (r['err'], r.get('msg', '')), c, r)
                 continue
+            if r.get('args_mutated') or not r.get('second_call_same', True):
+                viol('C11:preprocess_spectra:argument-modified',
+                     'preprocess_spectra modified a caller-owned array (%s); calling it again with the same arrays gives %s result'
+                     % (r.get('args_mutated'), 'the same' if r.get('second_call_same') else 'a DIFFERENT'), c, r,
+                     extra={'history': ['preprocess_spectra(flux, ivar, loglam, zfit, newloglam)', 'the same call again with the same array objects']})
             n_new = len(c['newloglam'])
             if not r['finite'] or r['shape'] != [len(c['flux']), n_new] or not r['loglam_same']:
                 viol('C11:preprocess_spectra:bad-output', 'non-finite output / wrong shape from preprocess_spectra', c, r)
@@ -349,6 +379,11 @@ def correspond(ctx, proof_ok=True):
                      var, c['variant'], c['kwargs']['aesthetics'], r['err'], r.get('msg', '')), c, r,
                  extra={'meaning': 'the function must return finite flux and inverse variance of the output grid\'s length'})
             continue
+        if r.get('args_mutated') or r.get('result_aliases_arg'):
+            viol('C11:combine1fiber:argument-modified', 'combine1fiber modified a caller-owned array (%s) or returned storage shared with an argument'
+                 % r.get('args_mutated'), c, r)
+        if r.get('objivar_modified'):
+            stats['objivar_modified_in_place'] = stats.get('objivar_modified_in_place', 0) + 1
         n_new = len(c['newloglam'])
         if r['len_flux'] != n_new or r['len_ivar'] != n_new:
             viol('C11:combine1fiber:wrong-length', 'output length differs from the output grid', c, r)
@@ -407,11 +442,12 @@ def correspond(ctx, proof_ok=True):
                 viol('C11:combine1fiber:%s:impl=%s' % (var, sc['err']), 'scaled call raised %s' % sc['err'], c, r)
             else:
                 stats['scale_checks'] += 1
-                okf = close_vec(sc['newflux'], [s * v for v in nf], 1e-9) if c['kwargs']['aesthetics'] != 'damp' or True else True
+                # compare in the ORIGINAL units (a tolerance relative to 1 would be vacuous for c = 1e-17)
+                okf = close_vec([v / s for v in sc['newflux']], nf, 1e-9)
                 if c.get('ivar') is None:
                     oki = [v == 0 for v in sc['newivar']] == [v == 0 for v in ni]
                 else:
-                    oki = close_vec(sc['newivar'], [v / (s * s) for v in ni], 1e-9) and \
+                    oki = close_vec([v * (s * s) for v in sc['newivar']], ni, 1e-9) and \
                         [v == 0 for v in sc['newivar']] == [v == 0 for v in ni]
                 if not (okf and oki):
                     lost = sum(1 for a, b in zip(sc['newivar'], ni) if a == 0 and b > 0)
